@@ -73,7 +73,12 @@ def ref_fun2par(s, f):
         return 2.0 * np.log(np.asarray(f, dtype=float))
     if s["kind"] in ("mapped", "usermapped"):
         return ref_fun2par(s["base"], gen.MAPS[s.get("map", "cube")][1](np.asarray(f, dtype=float)))
-    return np.asarray(gen.make_geometry(s).fun2par(np.array(f, dtype=float)))
+    if s["kind"] == "image":
+        # pixel (i, j) -> parameter index by definition (row-major for order "C", column-major for "F"), whatever the memory layout
+        return np.ravel(np.asarray(f, dtype=float), order=s.get("order", "C")).copy()
+    if s["kind"] == "cont2d":
+        return np.ravel(np.asarray(f, dtype=float), order="C").copy()
+    return np.asarray(gen.make_geometry(s).fun2par(np.ascontiguousarray(np.array(f, dtype=float))))
 
 
 @st.composite
@@ -121,7 +126,8 @@ def model_cases(draw, tier="quick"):
             # the user's functions written as plain array expressions: geometry-carrying arrays pass through their arithmetic
             "raw_ops": draw(st.booleans()),
             # memory layout of the matrix of a matrix-backed linear model and of the parameter vectors handed to it
-            "layout": draw(st.sampled_from(gen.LAYOUTS))}
+            "layout": draw(st.sampled_from(gen.LAYOUTS)),
+            "out_layout": draw(st.sampled_from(["plain", "plain", "fortran", "strided", "reversed", "readonly"]))}
 
 
 def fun_shape(s):
@@ -153,9 +159,12 @@ def build(c):
     raw = bool(c.get("raw_ops")) and len(dshape) == 1 and len(rshape) == 1
     dom, ran = make_geom(c["dom"], raw), make_geom(c["ran"])
 
+    out_layout = c.get("out_layout", "plain")
+
     def F(f):
         v = np.asarray(f, dtype=float).reshape(-1)
-        return (B @ v + cc * np.tanh(D @ v)).reshape(rshape)
+        # (the user's function may hand back its result in any memory layout: a transposed / Fortran-ordered image, a view ...)
+        return gen.relayout((B @ v + cc * np.tanh(D @ v)).reshape(rshape), out_layout)
 
     def J(f):
         v = np.asarray(f, dtype=float).reshape(-1)
@@ -173,13 +182,13 @@ def build(c):
     elif k == "grad" and raw:
         model = cuqi.model.Model(fwd, ran, dom, gradient=grad_raw)
     elif k == "grad":
-        model = cuqi.model.Model(fwd, ran, dom, gradient=lambda direction, wrt: (np.asarray(direction).reshape(-1) @ J(wrt)).reshape(dshape))
+        model = cuqi.model.Model(fwd, ran, dom, gradient=lambda direction, wrt: gen.relayout((np.asarray(direction).reshape(-1) @ J(wrt)).reshape(dshape), out_layout))
     elif k == "noderiv":
         model = cuqi.model.Model(fwd, ran, dom)
     elif k == "lin_matrix":
         model = cuqi.model.LinearModel(gen.relayout(B, c.get("layout", "plain")), range_geometry=ran, domain_geometry=dom)
     else:
-        model = cuqi.model.LinearModel(fwd, lambda y: (B.T @ np.asarray(y).reshape(-1)).reshape(dshape),
+        model = cuqi.model.LinearModel(fwd, lambda y: gen.relayout((B.T @ np.asarray(y).reshape(-1)).reshape(dshape), out_layout),
                                        range_geometry=ran, domain_geometry=dom)
     Fref = F if k != "lin_matrix" else (lambda f: B @ np.asarray(f, dtype=float))
     return model, dom, ran, Fref
@@ -238,6 +247,14 @@ def run_forward(c, rec):
         yi = np.asarray(ref_fun2par(c["ran"], F(ref_par2fun(c["dom"], P[:, i]))), dtype=float)
         require(close(Ys.samples[:, i], yi, 1e-12), "forward(Samples) is not column-wise forward", i=i)
     require(maxdiff(S.samples, P) == 0, "forward altered the input samples")
+    # a chain that moves in tiny steps: every column is evaluated, none is taken over from its neighbour
+    Ptiny = P[:, :1] * (1.0 + 1e-7 * np.arange(4)[None, :]) + 1e-9 * np.arange(4)[None, :]
+    refused, Yt = refuses(lambda: model.forward(cuqi.samples.Samples(Ptiny.copy(), geometry=dom)))
+    if not refused:
+        for i in range(4):
+            yi = np.asarray(model.forward(Ptiny[:, i].copy()), dtype=float)
+            require(maxdiff(np.asarray(Yt.samples, dtype=float)[:, i], yi) <= 1e-13 * (1 + np.max(np.abs(yi))),
+                    "forward(Samples) of a chain moving in tiny steps is not column-wise forward (a column was taken over from its neighbour?)", i=i)
     # an integer-typed sample array: the same map, nothing truncated
     Pint = np.round(2 * P).astype(int)
     refused, Yi = refuses(lambda: model.forward(cuqi.samples.Samples(Pint.copy(), geometry=dom)))
